@@ -135,8 +135,9 @@ def partial_transpose(
     if isinstance(dim, (list, np.ndarray)):
         # Copy: the dimensions are updated in place below, which must not reach the caller's array.
         dim = np.array(dim)
-    if isinstance(sys, list):
-        sys = np.array(sys)
+    if isinstance(sys, (list, np.ndarray)):
+        # Integer dtype also for the empty set of subsystems (an empty list would give a float array).
+        sys = np.array(sys, dtype=int)
     if isinstance(sys, int):
         sys = np.array([sys])
 
